@@ -166,7 +166,8 @@ ADDED = {
            'D9: the 0x66 prefix of mnemonics shared by the mm and xmm forms is selected iff an operand is xmm (evaluated on 8 operand shapes per name).',
     'C03': ' Also (D5): for movs/cmps/lods a segment override is printed (operand elision of __str__ evaluated) and turned back into the prefix by normalize_args (evaluated). D7: every '
            'mnemonic list by which _dis rejects or sizes an operand form is consulted by the same branch of the assembler; D8: x87 st(i) rows pass check_size_modif (evaluated) with the size '
-           'the parser gives st(i) and agree with the implicit-operand lists; D3: every renamed row copy the decoder uses is a name the assembler finds.',
+           'the parser gives st(i) and agree with the implicit-operand lists; D3: every renamed row copy the decoder uses is a name the assembler finds. '
+           'D9: both assembler entry points type the immediates before candidates are selected (shared with C19.D6).',
     'C04': ' Also (D7): CF and OF of mul/imul are computed from the double-width product (the high half; for the signed forms compared with the sign extension of the low half), decided on '
            'the lifted templates of every operand form; (D8) aaa/aas/daa/das: the lifted assignments evaluated on every al x AF x CF x 5 values of ah equal the SDM pseudo-code. '
            'D9: push/pop through esp use the value of esp IA-32 prescribes (addresses of the lifted templates evaluated). D10-D13: the lifted assignments of the shifts and rotates are evaluated '
@@ -191,7 +192,8 @@ ADDED = {
     'C10': ' Also (D4/D5): a decode that finds no instruction restores the stream offset; mnemo_from_att, evaluated on every mnemonic-like name (Intel names, AT&T table entries, +/- suffix '
            'letters) x operand shape, returns or raises ValueError; constant operand indices of __str__ are reachable only with enough operands (string-instruction operand counts and '
            'row-dependent guards evaluated); dictionary displays subscripted in the assembler have table-derived keys that are always present, or a membership test. '
-           'D6: every operand fetch reads the number of bytes its mode prescribes (shared with C01.D3).',
+           'D6: every operand fetch reads the number of bytes its mode prescribes (shared with C01.D3). '
+           'D7: arg_set_numpy_imm is evaluated on every pair of operand-size tokens (no TypeError/KeyError); D8: dict_mul, evaluated on register x constant and on chains of factors, builds no value whose size grows with the constant.',
     'C12': ' Also (D2/D6): every method of the evaluator class counts as an entry point whose defaults callers omit (dict-dispatch callees resolved); sys.path / sys.modules replaced inside a '
            'function are restored in a finally. '
            'D7: no function in the API modules mutates in place a module-level table, or a local bound to one (a lifter reversing the shared register list).',
@@ -201,7 +203,8 @@ ADDED = {
            'The right shift returns 0 for a count >= width only for the unsigned classes (an arithmetic shift of a negative value saturates at -1).',
     'C15': ' Also: what get_size() reads takes part in __eq__ (constants of different widths differ); evaluation-control flags the evaluator sets on freshly built nodes of a class survive '
            'that class\'s copy(). '
-           'Every constructor call inside copy()/visit() passes each positional field from the field of the same name (no swapped flags).',
+           'Every constructor call inside copy()/visit() passes each positional field from the field of the same name (no swapped flags). '
+           'D3: replace_expr is a simultaneous substitution: no traversal puts the caller\'s values in place while it still looks the caller\'s keys up.',
     'C16': ' Also: test_set is evaluated over the full product of wildcard / non-wildcard pattern, previous binding present / equal / different; an equality short cut may not bypass the joker table.',
     'C17': ' Also (D4): every renamed row copy keeps the control-flow class of the row it copies (iretw of iret, not of the neighbouring into); rows led by 0x66 take the class of the opcode behind it.',
     'C16': ' test_set is evaluated on its five cases (success returns the bindings); the class dispatch of MatchExpr fails, never crashes, on classes without a branch.',
@@ -210,7 +213,8 @@ ADDED = {
            'other class; the text must be accepted by exactly its own class and every field must come back.',
     'C19': ' Also (D4): both parsers give a shared register name the same operand size; every condition-code alias (cmovcc/setcc) is read back from AT&T syntax as itself with and without '
            'size suffix. '
-           'D5: the operand-size detection gives the same mode for Intel- and AT&T-parsed operands.',
+           'D5: the operand-size detection gives the same mode for Intel- and AT&T-parsed operands. '
+           'D6: every entry point that reaches asm_candidates has typed the immediates with the operand size (0xffff and -1 of a 16-bit operand get the same candidates); D7: the rendering memo txt of an operand never decides a candidate.',
 }
 
 PENDING = {}
